@@ -132,4 +132,13 @@ theorem label_map_roundtrip (m : CMap) (hok : ∀ kv ∈ m, EntryOk kv) (hnd : (
     have hf : Flat v := (hok (l, v) ((lookup_eq_some_iff m l v hnd).mp h)).2
     exact ⟨rfl, getInt_normV hf, getBool_normV hf, getString_normV hf, fun hn => getBytes_normV hf (fun e => hn (by rw [e]))⟩
 
+/-- **the decoder is not narrower than the encoder**: the options literals in `key/cbor.go` (regenerated) set nothing but
+    duplicate-key enforcement, the ban on indefinite lengths and the bytewise sort; no size or nesting limit below
+    fxamacker's defaults is configured, so whatever the library encodes (headers nested to any depth the defaults allow)
+    it decodes again -/
+theorem codec_options_are_the_known_ones :
+    Cose.Gen.Layouts.cborOptions =
+      [("decOpts", [("DupMapKey", "cbor.DupMapKeyEnforcedAPF"), ("IndefLength", "cbor.IndefLengthForbidden")]),
+       ("encOpts", [("IndefLength", "cbor.IndefLengthForbidden"), ("Sort", "cbor.SortBytewiseLexical")])] := by decide +kernel
+
 end Cose.Props.C09
